@@ -188,8 +188,28 @@ def update_ops(fnode, targets, within=None):
                 and n.value.func.attr in ("append", "extend"):
             b = _tname(n.value.func.value)
             if b in targets:
-                out.add((b, "." + n.value.func.attr, "", "-"))
+                # a history window is order-sensitive (FIFO eviction): the committed sequence has to be the
+                # simulated one, not a re-ordering / de-duplication of it
+                arg = n.value.args[0] if n.value.args else None
+                out.add((b, "." + n.value.func.attr, "REORDERED" if arg is not None and _reorders(arg) else "", "-"))
     return out
+
+
+REORDERING_CALLS = {"sort", "sorted", "unique", "flip", "flipud", "fliplr", "reversed", "shuffle", "permutation",
+                    "set", "frozenset", "partition", "roll"}
+
+
+def _reorders(e):
+    for x in ast.walk(e):
+        if isinstance(x, ast.Call):
+            f = x.func
+            nm = f.attr if isinstance(f, ast.Attribute) else (f.id if isinstance(f, ast.Name) else "")
+            if nm in REORDERING_CALLS:
+                return True
+        if isinstance(x, ast.Slice) and x.step is not None and isinstance(x.step, ast.UnaryOp) \
+                and isinstance(x.step.op, ast.USub):
+            return True
+    return False
 
 
 def _tname(t):
@@ -433,6 +453,39 @@ def run(p, report, tier):
                    f"{u.file}:{u.node.lineno}", bool(sized),
                    detail=f"{len(qdraw)} simulated draw site(s); update: " + (norm_stmt(sized[0].node, 60) if sized else
                           "no draw sized by / looped over the candidates"))
+    # ---------------- R10.10 (= C06 R6.5 restricted to update)
+    report.rule("R10.10", "what update commits lives in the strategy's / manager's own objects: no store to, and no "
+                "in-place mutation of, an object held by a constructor parameter (a budget manager handed to several "
+                "strategies, or re-used for another chunking of the same stream, would carry state across runs); "
+                "shared with C06 R6.5", floor=15)
+    from . import c05
+    for pkg in ("skactiveml.stream", "skactiveml.stream.budgetmanager"):
+        for ci in p.exported_classes(pkg):
+            f = p.find_method(ci, "update")
+            if f is None or is_abstract(f):
+                continue
+            it = Interp(p)
+            it.run_entity(ci, f)
+            c05.check_entity(p, report, ci, f, it, r_param="R10.10", r_arr=None, r_est=None)
+    # ---------------- R10.11
+    report.rule("R10.11", "the utility of an instance is computed from its own row: a reduction along axis 1 of a "
+                "(instances x classes) matrix that is recombined elementwise with such a matrix keeps the reduced axis "
+                "(keepdims / [:, None] / reshape(-1, 1)); without it numpy aligns the per-instance vector with the class "
+                "axis and instance i is scaled by the statistic of chunk neighbour j", floor=1)
+    from ..shapes import Kinds
+    for ci in p.exported_classes("skactiveml.stream"):
+        f = p.find_method(ci, "query")
+        if f is None or is_abstract(f):
+            continue
+        bad, good = Kinds(f.node).mismatches()
+        for n in good:
+            report.add("R10.11", f.qual, f"`{norm_stmt(n, 60)}` combines per-row quantities row by row", f"{f.file}:{n.lineno}", True,
+                       detail="reduced axis kept")
+        for n in bad:
+            report.add("R10.11", f.qual, f"`{norm_stmt(n, 60)}` combines per-row quantities row by row", f"{f.file}:{n.lineno}", False,
+                       detail="a 1-d vector over the instances is broadcast against the columns of an (instances x classes) "
+                              "matrix: for a chunk of exactly n_classes instances the utilities silently mix instances, "
+                              "for other chunk lengths the query raises")
     report.assumptions += [
         "chunking invariance as an equality of whole runs is not decided; R10.1-R10.5 are necessary structural conditions",
         "RandomVariableUncertaintyBudgetManager is outside the chunking-invariance claim (normally distributed draws) and is not judged by R10.2",
